@@ -763,7 +763,7 @@ def type_tables(jobs):
                         sc.append(bool(subclasscheck(cls, a)))
                     except Exception as e:  # noqa
                         sc.append("ERR:" + type(e).__name__)
-                    if typeuniv.KINDS[c - 1] == "abc":
+                    if typeuniv.KINDS[c - 1] == "abc" or typeuniv.KINDS[c - 1].startswith("proto"):
                         dp.append("skip")
                         continue
                     inst = {7: 5, 8: True, 9: "s"}.get(c) if c >= 7 else cls()
@@ -1406,4 +1406,88 @@ def recode_cases(jobs):
         out.append({"id": job["id"], "prog": job["prog"], "wrapper": wrapper, "offset": offset, "src": src,
                     "reg": {k: r[k] for k in ("ev", "val", "err", "built", "tb")},
                     "unreg": {k: u[k] for k in ("ev", "val", "err", "built", "tb")}})
+    return out
+
+
+def deferred_tables(jobs):
+    """C13: Deferred["pkg.sub.Cls"] / Deferred["mod.Cls"] declared before the
+    module is imported; tables recorded after the import.  Universe:
+    classes 1 object, 2 Shape, 3 Square(Shape), 4 Other (same package module),
+    5 Thing (top-level module), 6 int; types = the classes + the two deferred."""
+    import importlib
+    import os
+    import shutil
+    import sys
+    import tempfile
+
+    from ovld import Ovld, subclasscheck, typeorder
+    from ovld.types import Deferred
+
+    out = []
+    for job in jobs:
+        tag = f"{os.getpid()}_{job['n']}"
+        root = tempfile.mkdtemp(prefix="vfdef-", dir=job["dir"])
+        pkg, top = f"vfdp_{tag}", f"vfdt_{tag}"
+        os.mkdir(os.path.join(root, pkg))
+        open(os.path.join(root, pkg, "__init__.py"), "w").write("")
+        open(os.path.join(root, pkg, "sub.py"), "w").write("class Shape:\n    pass\nclass Square(Shape):\n    pass\nclass Other:\n    pass\n")
+        open(os.path.join(root, top + ".py"), "w").write("class Thing:\n    pass\n")
+        sys.path.insert(0, root)
+        try:
+            assert pkg not in sys.modules and top not in sys.modules
+            D1 = Deferred[f"{pkg}.sub.Shape"]
+            D2 = Deferred[f"{top}.Thing"]
+            # functions declared while the modules are not imported
+            fs = {}
+            for nme, D in (("d1", D1), ("d2", D2)):
+                ns = {"TT": D}
+                exec("def mt(x: TT):\n    return 'T'\ndef mo(x: object):\n    return 'O'\n", ns)
+                ov = Ovld()
+                ov.register(ns["mt"])
+                ov.register(ns["mo"])
+                fs[nme] = ov
+            pre = {nme: fs[nme](5) for nme in fs}  # a first use before the import
+            sub = importlib.import_module(f"{pkg}.sub")
+            topm = importlib.import_module(top)
+            classes = [None, object, sub.Shape, sub.Square, sub.Other, topm.Thing, int]
+            types = [{"k": "cls", "c": c} for c in range(1, 7)] + [{"k": "deferred", "c": 2}, {"k": "deferred", "c": 5}]
+            real = classes[1:] + [D1, D2]
+            rows = {}
+            for i, a in enumerate(real, start=1):
+                orow, srow = [], []
+                for b in real:
+                    try:
+                        orow.append(typeorder(a, b).name)
+                    except Exception as e:  # noqa
+                        orow.append("ERR:" + type(e).__name__)
+                    try:
+                        srow.append(bool(subclasscheck(a, b)))
+                    except Exception as e:  # noqa
+                        srow.append("ERR:" + type(e).__name__)
+                rec = {"order": orow, "subtt": srow}
+                if i in (7, 8):
+                    ov = fs["d1" if i == 7 else "d2"]
+                    sc, dp = [], []
+                    for c in range(1, 7):
+                        try:
+                            sc.append(bool(subclasscheck(classes[c], a)))
+                        except Exception as e:  # noqa
+                            sc.append("ERR:" + type(e).__name__)
+                        try:
+                            dp.append(ov(5 if c == 6 else classes[c]()))
+                        except TypeError as e:
+                            dp.append("AMB" if str(e).startswith("Ambiguous") else "ERR:" + str(e)[:40])
+                        except Exception as e:  # noqa
+                            dp.append("ERR:" + type(e).__name__)
+                    rec["clssub"] = sc
+                    rec["dispatch"] = dp
+                rows[str(i)] = rec
+            loaded = Deferred[f"{pkg}.sub.Shape"] is sub.Shape
+            out.append({"id": job["id"], "types": types, "rows": rows, "parents": [[], [1], [2], [1], [1], [1]],
+                        "attrs": [[], [], [], [], [], []], "pre": pre, "loaded_returns_class": loaded})
+        finally:
+            sys.path.remove(root)
+            for m in [m for m in sys.modules if m.startswith(pkg) or m == top]:
+                del sys.modules[m]
+            shutil.rmtree(root, ignore_errors=True)
     return out
